@@ -221,7 +221,7 @@ func c06OnceKey(c *Check, a *Anchors) {
 	var other []string
 	for _, call := range callsIn(local, true) {
 		obj := callee(linfo, call)
-		if isFunc(obj, "strings", "", "TrimPrefix") && len(call.Args) == 2 {
+		if (isFunc(obj, "strings", "", "TrimPrefix") || isFunc(obj, "strings", "", "CutPrefix")) && len(call.Args) == 2 {
 			arg := ast.Unparen(call.Args[1])
 			okArg := fieldSel(linfo, arg, PkgAst, "Task", "Namespace")
 			if constIs(linfo, arg, `":"`) {
